@@ -17,6 +17,8 @@ func newExec(L *Loaded, db *ContractDB, so *Sorts) *Exec {
 
 // FuncResult is what verifying one function produced.
 type FuncResult struct {
+	InlineS float64
+	InlineN int
 	Key     string
 	Obs     []*Obligation
 	Errs    []string
@@ -104,6 +106,7 @@ func verifyFunc(L *Loaded, db *ContractDB, fn *ssa.Function, fc *FuncContract) *
 		ob.Bytes = len(ob.Script)
 	}
 	res.Obs, res.Errs, res.Abstr, res.States, res.Dropped = x.obs, x.errs, x.abstr, x.states, x.dropped
+	res.InlineS, res.InlineN = x.inlineS, x.pruned
 	for a := range x.assum {
 		res.Assum = append(res.Assum, a)
 	}
